@@ -65,6 +65,18 @@ impl Analysis<LArith> for A3 {
     }
     fn modify(eg: &mut EGraph<LArith, Self>, i: Id) {
         CALLS.with(|c| c.borrow_mut().2 += 1);
+        if crate::core::case_salt() % 2 == 0 {
+            // the hook as the repository's own constant-propagation test writes it: it takes the id it is handed at face value (the
+            // class it is called for is live), looks at the class's e-nodes and unions with the identity invocation of that id
+            if let Some(k) = eg.analysis_data(i).1 {
+                let already = eg.enodes(i).iter().any(|n| matches!(n, LArith::Num(_)));
+                if !already {
+                    let a = eg.add(LArith::Num(k));
+                    eg.union(&a, &eg.mk_identity_applied_id(i));
+                }
+            }
+            return;
+        }
         if let Some(k) = eg.analysis_data(i).1 {
             let a = eg.add(LArith::Num(k));
             let ident = eg.mk_identity_applied_id(eg.find_applied_id(&eg.mk_identity_applied_id(i)).id);
@@ -200,7 +212,9 @@ pub fn run_renamed_case(rng: &mut Rng) -> CaseOut {
         return out;
     }
     // second run in a fresh thread (fresh slot table), same random choices, renamed slots
-    let h = std::thread::Builder::new().stack_size(128 << 20).spawn(move || run_inner(&mut r2, style)).unwrap();
+    // (the per-case salt travels with the case: both runs build their rules and their hook in the same variants)
+    let salt = crate::core::case_salt();
+    let h = std::thread::Builder::new().stack_size(128 << 20).spawn(move || { crate::core::CASE_SALT.with(|c| c.set(salt)); run_inner(&mut r2, style) }).unwrap();
     let (out_b, trace_b) = h.join().unwrap();
     out.inc("renamed_runs");
     if let Some(f) = out_b.fails.first() {
